@@ -8,31 +8,29 @@ BASE_NOTE = ("Trusted: Coq 8.16.1 kernel + vm_compute (no native_compute); the h
              "correspondence harness (Go overlay files, build tag verif, lib/vlib.py) that ties it to /repo on every run; "
              "Go toolchain and the modelled libraries. Print Assumptions of every property theorem is re-run and checked on every run. ")
 
-CLAIMS = {
- "C12": dict(
-   engine="elect",
-   technique="Coq proof (argmin lemmas by induction over the candidate list) + differential correspondence of ShouldAnnounce vs model with in-Coq SHA-256",
-   text="Theorems C12_* (Properties/C12.v) prove for all hash functions, all candidate lists and all removed/added sets that the argmin election "
-        "keeps the announcer unless it leaves or an added node wins, is order/multiplicity independent and depends only on names+address; "
-        "C12_code_connection ties argmin to the transcription of ShouldAnnounce, which is compared with the real ShouldAnnounce on every node of generated views each run.",
-   note=BASE_NOTE + "H-sha (no SHA-256 collision inside one election) is the explicit premise inj_on; sort.Slice returns the least element first.",
-   ref="4/C12"),
- "C04": dict(
-   engine="elect",
-   technique="Coq proof (decide <-> eligible /\\ least hash; uniqueness) + differential correspondence; F8 refutation theorem with witness",
-   text="C04_exactly_one / C04_none_otherwise / C04_winner_eligible / C04_decide_spec hold for every view and every hash function; the clause "
-        "'all services sharing an address elect the same node' is proved for equal first address and refuted in general (C04_shared_address_same_winner_refuted, "
-        "KNOWN-FINDING F8 reproduced on the code each run).",
-   note=BASE_NOTE + "H-sha as premise; all speakers are assumed to share the view (the property's own premise).",
-   ref="4/C04"),
-}
+def load_claims():
+    """props/Cxx.claim.json: {engine, technique, text, note, ref, [category], [engine_paths], [engine_kind]}"""
+    claims = {}
+    for pid in ALL:
+        f = os.path.join(V, "props", pid + ".claim.json")
+        if os.path.exists(f):
+            claims[pid] = json.load(open(f))
+    return claims
 
-ENGINES = [
- {"name": "elect", "path": "coq/Model/Elect.v coq/Proofs/ElectP.v coq/Corr/Run_Elect.v harness/speaker/zz_verif_l2_test.go props/elect_common.py",
-  "serves_properties": ["C04", "C12"], "kind_free_text": "Coq model+proofs of the layer-2 election, Go differential harness"},
-]
+def engines(claims, claimed):
+    es = {}
+    for pid, c in claims.items():
+        if pid not in claimed:
+            continue
+        e = es.setdefault(c["engine"], {"name": c["engine"], "path": c.get("engine_paths", ""), "serves_properties": [],
+                                        "kind_free_text": c.get("engine_kind", "Coq model + proofs, Go differential harness")})
+        e["serves_properties"].append(pid)
+        if c.get("engine_paths") and not e["path"]:
+            e["path"] = c["engine_paths"]
+    return list(es.values())
 
 def main():
+    CLAIMS = load_claims()
     checks = []
     for pid in ALL:
         c = CLAIMS.get(pid)
@@ -46,7 +44,7 @@ def main():
             "replay_cmd_template": "./check %s --tier quick --replay {path}" % pid,
             "engine": c["engine"],
             "level_claimed": {"category": c.get("category", "proof"), "text": c["text"], "design_ref": "DESIGN.md section " + c["ref"]},
-            "level_note": c["note"],
+            "level_note": BASE_NOTE + c["note"],
             "technique": c["technique"],
         })
     claimed = {c["property_id"] for c in checks}
@@ -59,7 +57,7 @@ def main():
                   "enable": "go test -tags verif -overlay <generated json>: all instrumentation is overlay-only (files under /verif/harness), nothing is committed to /repo",
                   "baseline_off_cmd": "for m in $(cat /w/out/gomods.txt); do MF=$(cd /repo/$m && . /w/out/goenv.sh && gomodflag); (cd /repo/$m && go test $MF -json -vet=off -count=1 -timeout 25m ./...); done",
                   "source_commits": [], "add_only": True},
-        "engines": ENGINES,
+        "engines": engines(CLAIMS, claimed),
         "checks": checks,
         "notes": "Machine-checked proof in Coq 8.16.1 about executable models, tied to /repo by differential correspondence on every run. See DESIGN.md.",
         "not_applicable": na,
